@@ -26,7 +26,7 @@ import tatsu.exceptions
 from MIP.geom.cells import get_cells, get_cell_importances
 from MIP.geom.parsegeom import get_ast
 from MIP.geom.transforms import to_cos
-from MIP.mip.datacard import expand_data_card
+from MIP.mip.datacard import expand_data_card, to_float
 from ...Progress import Progress
 from ...Volume.CellMCNP import CellMCNP
 from ...Volume.Lattice import parse_ranges, LatticeSpec
@@ -286,7 +286,7 @@ class ParseMCNPCell:
         else:
             fillid_u = int(float(first_arg))
         while kw_list and kw_list[-1][0] in '0123456789.+-':
-            fill_params.append(float(kw_list.pop()))
+            fill_params.append(to_float(kw_list.pop()))
         # now handle the case where the number of the
         # transformation was given instead of the transformation
         # parameters
@@ -329,7 +329,7 @@ class ParseMCNPCell:
         '''Parse the arguments of the TRCL and *TRCL keywords.'''
         trcl_params = []
         while kw_list and kw_list[-1][0] in '0123456789.+-':
-            trcl_params.append(float(kw_list.pop()))
+            trcl_params.append(to_float(kw_list.pop()))
         # now handle the case where the number of the
         # transformation was given instead of the transformation
         # parameters
